@@ -699,11 +699,13 @@ RestorePers(id, res) ==
 Compact(res, R) ==
   /\ ~wtx.on
   /\ ("len0" \in DOMAIN R /\ ~IsErr(res)) => (R.len1 <= R.len0 /\ R.syncs <= 8 * (R.pages0 + 8))
-  /\ IF DOMAIN Latest.psp # {} THEN IsE(res, "PersistentSavepointExists")
+  \* (after a reported storage error compact() is refused like every write; WHICH refusal it reports is not determined
+  \* then: the savepoint registrations of a commit that failed stay in the tracker until the database is reopened)
+  /\ IF latch # "ok" THEN IsErr(res)
+     ELSE IF DOMAIN Latest.psp # {} THEN IsE(res, "PersistentSavepointExists")
      ELSE IF \E s \in DOMAIN eph : eph[s].valid THEN IsE(res, "EphemeralSavepointExists")
      ELSE IF DOMAIN readers # {} \/ DOMAIN its # {} \/ DOMAIN eph # {}
           THEN IsE(res, "TransactionInProgress")
-     ELSE IF latch # "ok" THEN IsErr(res)
      ELSE IsOk(res) /\ res.ok \in BOOLEAN
   /\ dur' = IF IsErr(res) THEN dur ELSE Len(hist)       \* its commits are durable
   /\ UNCHANGED <<hist, inflight, wtx, readers, rpend, eph, nextOrd, its, latch>>
